@@ -40,6 +40,12 @@ FINITE_DELAYED = {"species": ["A", "B"], "reactions": [
     "params": {"k0": 1.0, "k1": 0.5, "tau": 0.7}, "ic": {"A": 5, "B": 0}}
 
 
+# a slow process watched over a long time: the total propensity is tiny but not zero
+FINITE_SLOW = {"species": ["A", "B"], "reactions": [
+    {"reactants": ["A"], "products": ["B"], "prop": {"type": "massaction", "k": "k0"}}],
+    "params": {"k0": 1e-9}, "ic": {"A": 3, "B": 0}}
+
+
 def corr_network(ctx, spec, T, seeds, safe=False):
     ctx.begin_case({"spec": spec, "grid": [float(t) for t in T], "seeds": seeds, "safe": safe})
     M = build_model(spec)
@@ -147,6 +153,7 @@ def run(ctx):
         cme_test(ctx, spec, [0.3, 1.0, 2.5], nruns, 1000 * ctx.seed + 17 * k + 1, strided=bool(k % 2))
     cme_test(ctx, FINITE[0], [0.75, 1.25, 2.5], nruns, 1000 * ctx.seed + 777, offset=True)
     cme_test(ctx, FINITE[1], [0.1, 0.3, 0.6, 1.0, 2.5], nruns, 1000 * ctx.seed + 555, sim_kind="volume")
+    cme_test(ctx, FINITE_SLOW, [2e8, 1e9, 2e9], nruns, 1000 * ctx.seed + 222)
     cme_test(ctx, FINITE_DELAYED, [0.3, 1.0, 2.5], nruns, 1000 * ctx.seed + 333)
     cme_test(ctx, FINITE_DELAYED, [0.3, 1.0, 2.5], nruns, 1000 * ctx.seed + 444, sim_kind="volume", strided=True)
 
